@@ -11,6 +11,7 @@
      argument, array / hash element, arm of a ternary, right side of `=`,
      condition of if / while / switch, foreach range, case value) is written
      `show_inner`, without the outer parentheses;
+   - `else` followed by a lone `if` statement is written `else if ...`;
    - every statement ends in `;` (also after `}`), except the bare name in the
      pair `x ++ ;` / `x -- ;`, which the parser represents as the TWO
      statements `x` and `++` (the second one remembers the text of the token
@@ -98,7 +99,12 @@ Fixpoint show_inner (e : expr) : list token :=
       tk TIf :: tk TLParen :: show_inner c ++ tk TRParen :: braces (glue show_stmt cns) ++
       match alt with
       | None => []
-      | Some a => tk TElse :: braces (glue show_stmt a)
+      | Some a =>
+          tk TElse ::
+          match a with
+          | [SExpr (EIf _ _ _ as e2)] => show_inner e2          (* else if ... *)
+          | _ => braces (glue show_stmt a)
+          end
       end
   | EWhile c b =>
       tk TWhile :: tk TLParen :: show_inner c ++ tk TRParen :: braces (glue show_stmt b)
@@ -247,6 +253,16 @@ Fixpoint count_def (l : list (bool * list expr * list stmt)) : nat :=
 (*  - a switch has at most one default; a default has no values, a     *)
 (*    case has at least one.                                           *)
 (* Nesting depth is a separate, numeric condition (prog_depth below).  *)
+(*                                                                     *)
+(* Trees the parser CAN produce from other token lists and that are    *)
+(* deliberately left out: EPostfix after anything but its bare name    *)
+(* (`( ++ )` gives EPostfix "(" ++); `a.1`, `a."b"` (EStr "1", EStr    *)
+(* "\"b\""); a regexp written with an empty flag group `(?)`; literals *)
+(* the lexer cannot produce (signed integers, empty names).            *)
+(* Trees the parser can NOT produce at all: EInfix `.` with a right    *)
+(* operand that is not a string; a ternary with a ternary in an arm;   *)
+(* `local` where the in-function flag is clear; EAssign and friends    *)
+(* are fine in any position (`1 + (x = 2)` parses).                    *)
 (* ------------------------------------------------------------------ *)
 
 Definition nonempty_l (l : list expr) : bool := match l with [] => false | _ => true end.
@@ -346,7 +362,14 @@ Fixpoint din (e : expr) : N :=
   | EAssign _ v => 2 + din v
   | EIf c cns alt =>
       2 + N.max (din c) (N.max (maxl (map din_s cns))
-                               (match alt with None => 0 | Some a => maxl (map din_s a) end))
+                               (match alt with
+                                | None => 0
+                                | Some a =>
+                                    match a with
+                                    | [SExpr (EIf _ _ _ as e2)] => din e2 - 1   (* else if: no block level *)
+                                    | _ => maxl (map din_s a)
+                                    end
+                                end))
   | EWhile c b => 1 + N.max (din c) (maxl (map din_s b))
   | EForeach _ _ v b => 1 + N.max (din v) (maxl (map din_s b))
   | EFunction _ _ b => 1 + maxl (map din_s b)
@@ -390,3 +413,73 @@ with flk_s (s : stmt) : Prop :=
   match s with SReturn e => flk e | SExpr e => flk e end.
 Definition floats_known (p : program) : Prop := all_p flk_s p.
 End Floats.
+
+(* ------------------------------------------------------------------ *)
+(* Stage 3: minimal parentheses for index / call / `.` / prefix        *)
+(* operators against the binary operators.  Documented binding order:  *)
+(*   index, `.` (14) > call (13) > prefix (12) > % (11) > ** (10) > ...  *)
+(* ------------------------------------------------------------------ *)
+
+Inductive xtree :=
+| XId (n : str)
+| XInt (t : str) (v : Z)
+| XBin (op : tokty) (l r : xtree)
+| XPre (op : tokty) (r : xtree)
+| XIdx (l i : xtree)
+| XDot (l : xtree) (name : str)
+| XCall (f : xtree) (args : list xtree).
+
+Fixpoint x_expr (t : xtree) : expr :=
+  match t with
+  | XId n => EIdent n
+  | XInt s v => EInt s v
+  | XBin op l r => EInfix op (x_expr l) (x_expr r)
+  | XPre op r => EPrefix op (x_expr r)
+  | XIdx l i => EIndex (x_expr l) (x_expr i)
+  | XDot l n => EInfix TPeriod (x_expr l) (EStr n)
+  | XCall f args => ECall (x_expr f) (map x_expr args)
+  end.
+
+(* what may FOLLOW the tree without capturing part of it: an operator of
+   strength <= xhi (a prefix expression is followed by nothing stronger than 12:
+   in `-a[0]` the index belongs to `a`) *)
+Definition xhi (t : xtree) : N :=
+  match t with
+  | XBin op _ _ => match doc_prec op with Some p => p | None => 0 end
+  | XPre _ _ => 12
+  | _ => 100
+  end.
+(* where the tree may STAND: as the operand of an operator of strength < xlo *)
+Definition xlo (t : xtree) : N :=
+  match t with
+  | XBin op _ _ => match doc_prec op with Some p => p | None => 0 end
+  | XPre _ _ | XIdx _ _ | XDot _ _ | XCall _ _ => 13
+  | _ => 100
+  end.
+
+Definition par (b : bool) (toks : list token) : list token :=
+  if b then tk TLParen :: toks ++ [tk TRParen] else toks.
+
+Fixpoint show_x (t : xtree) : list token :=
+  match t with
+  | XId n => [mkTok TIdent n]
+  | XInt s _ => [mkTok TInt s]
+  | XBin op l r =>
+      let q := xhi t in
+      par (xhi l <? q) (show_x l) ++ tk op :: par (xlo r <=? q) (show_x r)
+  | XPre op r => tk op :: par (xlo r <=? 12) (show_x r)
+  | XIdx l i => par (xhi l <? 14) (show_x l) ++ tk TLSquare :: show_x i ++ [tk TRSquare]
+  | XDot l n => par (xhi l <? 14) (show_x l) ++ [tk TPeriod; mkTok TIdent n]
+  | XCall f args => par (xhi f <? 13) (show_x f) ++ tk TLParen :: commas (map show_x args) ++ [tk TRParen]
+  end.
+
+Fixpoint xwf (t : xtree) : bool :=
+  match t with
+  | XId n => ident_ok n
+  | XInt s v => int_ok s v
+  | XBin op l r => (match doc_prec op with Some _ => true | None => false end) && xwf l && xwf r
+  | XPre op r => prefix_op op && xwf r
+  | XIdx l i => xwf l && xwf i
+  | XDot l n => xwf l && ident_ok n
+  | XCall f args => xwf f && forallb xwf args
+  end.
